@@ -9,6 +9,7 @@ import (
 	"os"
 	"runtime"
 
+	"github.com/Masterminds/semver/v3"
 	"github.com/creativeprojects/go-selfupdate"
 	"github.com/rs/zerolog/log"
 )
@@ -63,7 +64,9 @@ func Updater(version string, executablePath string) (string, error) {
 		return emptyVersion, err
 	}
 
-	if latest.LessOrEqual(version) {
+	// A development build has no comparable version ("dev"): it counts as older
+	// than any release. LessOrEqual panics on a version it cannot parse.
+	if _, err := semver.NewVersion(version); err == nil && latest.LessOrEqual(version) {
 		logger.Info().Msgf("You have the latest version installed, %s", version)
 		return version, nil
 	}
